@@ -216,12 +216,12 @@ def _red2(p):
         r = ZERO
         for mon, v in p.t.items():
             d = dict(mon)
-            hit = [a for a in d if a in NORM_ATOMS and d[a] >= 2]
+            hit = [a for a in d if (a in NORM_ATOMS or a == 'ak') and d[a] >= 2]
             if hit:
                 changed = True
                 a = hit[0]
                 d[a] -= 2
-                vv = sum((x * x for x in _vec(NORM_ATOMS[a])), ZERO)
+                vv = Poly.atom('k') * Poly.atom('k') if a == 'ak' else sum((x * x for x in _vec(NORM_ATOMS[a])), ZERO)
                 r = r + Poly({tuple(sorted((k, q) for k, q in d.items() if q)): v}) * vv
             else:
                 r = r + Poly({mon: v})
@@ -315,12 +315,13 @@ def check_distance(run, rule='R23'):
         if parallel:
             k = Val([Poly.atom('k')])
             b = a.mul(k)
-            nb = Val([Poly.atom('nw1') * Poly.atom('k')])       # |k a| = |k| |a|; squared quantities only, sign of k irrelevant
+            nb = Val([Poly.atom('nw1') * Poly.atom('ak')])      # |k a| = |k| |a|, ak = |k| with ak^2 = k^2 (the sign of k is kept apart)
         else:
             b = Val(_vec('b'))
             nb = Val([Poly.atom('nw2')])
         env = {'l1.w': a, 'l1.v': a.cross(p1), 'l1.uw': a.div(Val([Poly.atom('nw1')])),
-               'l2.w': b, 'l2.v': b.cross(p2), 'l2.uw': b.div(nb)}
+               'l2.w': b, 'l2.v': b.cross(p2), 'l2.uw': b.div(nb),
+               'norm(l1.w)': Val([Poly.atom('nw1')]), 'norm(l2.w)': nb}
         return env, a, b, p1, p2
 
     # locate the assignments to the result in the two branches
